@@ -115,7 +115,12 @@ Inductive op :=
 | AddId (s : sink) (t : option nat) (ss : bool)        (* add_rule(s, 'test_id', test_id=t, do_start_stop_run=ss) *)
 | Start
 | Stop
-| Status (via : list seg) (e : event).
+| Status (via : list seg) (e : event)
+| AddRej (s : sink) (why : nat) (ss : bool).           (* an add_rule call that is rejected: ValueError for an unknown policy, or the
+                                                          policy method raises TypeError (policy_args do not bind: missing / foreign
+                                                          keyword; `"/" in route_prefix` is true or itself raises; unhashable test id).
+                                                          `why` numbers the concrete call in the harness table REJECTS; both raise
+                                                          points lie BEFORE the first assignment to the router's fields. *)
 
 Definition with_rules (r : router) pre ids : router :=
   {| r_fallback := r_fallback r; r_prefixes := pre; r_ids := ids; r_sinks := r_sinks r; r_in_run := r_in_run r |}.
@@ -151,6 +156,7 @@ Definition step (r : router) (o : op) : router * (bool * list delivery) :=
       | Some (t, e') => (r, (false, [(t, St e')]))
       | None => (r, (true, []))
       end
+  | AddRej _ _ _ => (r, (true, []))     (* raises before the dictionaries, _sinks are touched and before sink.startTestRun() *)
   end.
 
 Fixpoint run (r : router) (l : list op) : list (bool * list delivery) :=
